@@ -36,6 +36,8 @@ type Ev struct {
 	// FailRm: URR ids whose removal by this message the data plane turns down once (a transient error): the URR stays,
 	// there is no final usage yet, and whatever ends the URR later returns it
 	FailRm []uint32 `json:"fail_rm,omitempty"`
+	// FailRmPDR: PDR ids whose removal by this message the data plane turns down once: the PDR stays, with its URR list
+	FailRmPDR []uint32 `json:"fail_rm_pdr,omitempty"`
 }
 
 type Case struct {
@@ -61,6 +63,7 @@ type model struct {
 	// via[pdr][urr] = "create" | "update": how the association came about
 	via        map[uint32]map[uint32]string
 	sharedOnce map[uint32]bool
+	failPDR    map[uint32]bool // set by the caller for the next apply
 }
 
 func (m *model) refs(u uint32) int {
@@ -94,6 +97,8 @@ type stats struct {
 // Processing order of the UPF: create URR, create PDR, remove URR, remove PDR, update PDR, query URR.
 func (m *model) apply(rules []stack.RuleOp, stt *stats, failRm ...uint32) (termr, immer map[uint32]int) {
 	failing := setOf(failRm)
+	failingPDR := m.failPDR
+	m.failPDR = nil
 	termr, immer = map[uint32]int{}, map[uint32]int{}
 	detach := func(p, u uint32) {
 		if !m.pdr[p][u] {
@@ -150,6 +155,12 @@ func (m *model) apply(rules []stack.RuleOp, stt *stats, failRm ...uint32) (termr
 	}
 	for _, ru := range rules {
 		if ru.Kind == "PDR" && ru.Verb == "remove" {
+			if failingPDR[ru.ID] {
+				if _, ok := m.pdr[ru.ID]; ok {
+					stt.failedRemove = true
+					continue // turned down by the data plane: the PDR is still there and still names its URRs
+				}
+			}
 			if l, ok := m.pdr[ru.ID]; ok {
 				var us []uint32
 				for u := range l {
@@ -259,7 +270,7 @@ func gen(t *rapid.T) Case {
 	n := rapid.IntRange(1, 20).Draw(t, "n")
 	for i := 0; i < n; i++ {
 		var rules []stack.RuleOp
-		var failRm []uint32
+		var failRm, failRmPDR []uint32
 		urrOp := map[uint32]bool{}   // URRs named by a Create/Remove/Query URR IE of this message
 		touched := map[uint32]bool{} // URRs that may get a report through this message (at most one cause each)
 		touchedP := map[uint32]bool{}
@@ -368,9 +379,13 @@ func gen(t *rapid.T) Case {
 				for u := range l {
 					touched[u] = true
 				}
-				delete(pdr, p)
 				touchedP[p] = true
 				rules = append(rules, stack.RuleOp{Verb: "remove", Kind: "PDR", ID: p})
+				if rapid.IntRange(0, 5).Draw(t, "fail_rm_pdr") == 0 {
+					failRmPDR = append(failRmPDR, p) // the data plane turns the removal down: the PDR stays, nothing is due
+					continue
+				}
+				delete(pdr, p)
 				for u := uint32(1); u <= 4; u++ {
 					// ... and asks for an immediate report of a URR the PDR measured into
 					if l[u] && urr[u] && !urrOp[u] && rapid.IntRange(0, 2).Draw(t, "query_detached") == 0 {
@@ -453,7 +468,7 @@ func gen(t *rapid.T) Case {
 			}
 		}
 		if len(rules) > 0 {
-			c.Evs = append(c.Evs, Ev{Kind: "mod", Rules: rules, FailRm: failRm})
+			c.Evs = append(c.Evs, Ev{Kind: "mod", Rules: rules, FailRm: failRm, FailRmPDR: failRmPDR})
 		}
 	}
 	c.Evs = append(c.Evs, Ev{Kind: "del"})
@@ -583,11 +598,16 @@ func run(c Case) (v *vcore.Violation, stt stats) {
 	for i, ev := range c.Evs {
 		switch ev.Kind {
 		case "mod":
+			m.failPDR = setOf(ev.FailRmPDR)
 			wantT, wantI := m.apply(ev.Rules, &stt, ev.FailRm...)
-			failNow := setOf(ev.FailRm)
+			failNow, failNowPDR := setOf(ev.FailRm), setOf(ev.FailRmPDR)
 			d.FailRemove = func(kind string, seid uint64, id uint32) bool {
 				if kind == "URR" && failNow[id] {
 					delete(failNow, id)
+					return true
+				}
+				if kind == "PDR" && failNowPDR[id] {
+					delete(failNowPDR, id)
 					return true
 				}
 				return false
